@@ -493,14 +493,19 @@ class BinaryComponentLink(ComponentLink):
         left = context.id(self._left)
         right = context.id(self._right)
         operator = context.do(self._op)
-        return dict(left=left, right=right, operator=operator)
+        return dict(left=left, right=right, operator=operator,
+                    to=context.id(self.get_to_id()))
 
     @classmethod
     def __setgluestate__(cls, rec, context):
         left = context.object(rec['left'])
         right = context.object(rec['right'])
         operator = context.object(rec['operator'])
-        return cls(left, right, operator)
+        self = cls(left, right, operator)
+        # Session files written by older versions do not include the target
+        if 'to' in rec:
+            self.set_to_id(context.object(rec['to']))
+        return self
 
     def __str__(self):
         sym = OPSYM.get(self._op, self._op.__name__)
